@@ -103,6 +103,8 @@ def model_structure(seq, sort, trans, num, defs):
 def structure(doc):
     out = []
     for c in doc.children:
+        if isinstance(c, nodes.title):
+            continue
         if isinstance(c, nodes.footnote):
             out.append(("fn", c[0].astext() if len(c) and isinstance(c[0], nodes.label) else None, c["names"][0] if c["names"] else None))
         elif isinstance(c, nodes.transition):
@@ -143,13 +145,18 @@ class FootnoteSystem(System):
         seq = [SYM[i] for i in idx]
         text = text_of(seq)
         doc, warn = docutils_doctree(text, {"myst_footnote_sort": sort, "myst_footnote_transition": trans})
+        return evaluate(seq, sort, trans, text, doc, warn, "docutils")
+
+
+def evaluate(seq, sort, trans, text, doc, warn, front_end):
+    if True:
         num, dups, unref, defs, refs = model(seq, sort)
         viol = []
 
         def bad(clause, msg, **sig):
-            viol.append(violation(clause, {"clause": clause, "sort": sort, **sig}, f"sort={sort} transition={trans}: {msg}", text=text,
-                                  warnings=warn, doctree=doc.pformat()[:3000]))
-
+            viol.append(violation(clause, {"clause": clause, "sort": sort, **({"front_end": front_end} if front_end != "docutils" else {}), **sig},
+                                  f"[{front_end}] sort={sort} transition={trans}: {msg}", text=text,
+                                  warnings=warn, doctree=doc.pformat()[:3000])) 
         fns = list(doc.findall(nodes.footnote))
         by_name = {}
         for f in fns:
@@ -241,7 +248,54 @@ class FootnoteSystem(System):
                    canon=(tuple(sorted(num.items())), dups, unref, sort, trans, tuple(ms)))
 
 
+class SphinxFootnoteSystem(System):
+    """the same arrangements through the in-process Sphinx front end (settings supplied as front matter, one app per worker)"""
+
+    name = "arrangements-sphinx"
+    jobs = 8
+
+    def __init__(self, tier):
+        super().__init__(tier)
+        self.n = 3 if tier == "quick" else 4
+        self.symbols = list(range(13))
+        self.description = f"all sequences of <= {self.n} blocks over 13 footnote symbols x footnote_sort x footnote_transition through an in-process Sphinx application (read + post-transforms)"
+
+    def prepare(self, ctx):
+        self.root = ctx.scratch / "c11sx"
+        self.root.mkdir(exist_ok=True)
+
+    def worker_init(self, wid):
+        from ..drivers import SphinxDriver
+
+        self.drv = SphinxDriver(self.root / f"w{wid}")
+
+    def bounds(self):
+        return {"length": self.n, "symbols": len(self.symbols)}
+
+    def rule(self):
+        return "one case = (symbol sequence, sort, transition); non-trivial = at least one definition and one reference to a defined label"
+
+    def cases(self):
+        for n in range(1, self.n + 1):
+            for idx in itertools.product(self.symbols, repeat=n):
+                for sort in (True, False):
+                    for trans in (True, False):
+                        yield [list(idx), sort, trans]
+
+    def run(self, case):
+        idx, sort, trans = case
+        if not hasattr(self, "drv"):
+            self.worker_init(99)
+        seq = [SYM[i] for i in idx]
+        body = text_of(seq)
+        text = f"---\nmyst:\n  footnote_sort: {'true' if sort else 'false'}\n  footnote_transition: {'true' if trans else 'false'}\n---\n" + body
+        doc, warn = self.drv.read("t", text, resolve=True)
+        # Sphinx: no title in these documents, so the footnotes sit directly under the document as in docutils
+        w = warn.replace("WARNING: ", "")
+        return evaluate(seq, sort, trans, text, doc, w, "sphinx")
+
+
 def systems(tier):
     if tier == "quick":
-        return [FootnoteSystem(tier, "arrangements", list(range(13)), 3), FootnoteSystem(tier, "arrangements-deep", SYM_SMALL, 4)]
-    return [FootnoteSystem(tier, "arrangements", list(range(16)), 4), FootnoteSystem(tier, "arrangements-deep", SYM_SMALL, 6)]
+        return [FootnoteSystem(tier, "arrangements", list(range(13)), 3), FootnoteSystem(tier, "arrangements-deep", SYM_SMALL, 4), SphinxFootnoteSystem(tier)]
+    return [FootnoteSystem(tier, "arrangements", list(range(16)), 4), FootnoteSystem(tier, "arrangements-deep", SYM_SMALL, 6), SphinxFootnoteSystem(tier)]
